@@ -176,3 +176,48 @@ P("C14", "Push subscriptions deliver at least once until the endpoint accepts", 
  ("C14_payload_data", "b64_roundtrip", "the base64 data of the payload decodes to the published bytes"),
  ("C14_payload_record", "delivered_was_posted", "what a pass hands to the dispatcher is a published record (data, attributes, id)"),
 ])
+
+# ---- theorems about the small-step concurrent models (separate files: their names would clash with Model.Server)
+HDR_ACTORS = "From Coq Require Import List NArith Arith Bool Lia.\nImport ListNotations.\nFrom Deltio Require Import Model.ConcActors Proofs.ConcActorsP.\n"
+HDR_CSUB = "From Coq Require Import List NArith Arith Bool Lia.\nImport ListNotations.\nFrom Deltio Require Import Model.ConcSub Proofs.ConcSubP.\n"
+
+PX("C07", "C07_actors", "Every request terminates: no deadlock between topic and subscription actors", HDR_ACTORS, "ConcActorsP.v", [
+ ("C07_no_deadlock", "C07_progress", "actor model, any number of topics, subscriptions, clients, any mailbox capacity >= 1, arrivals and drops at any time: with the draining delete, whenever anything is outstanding (a pending client, a non-empty mailbox, an actor inside a request, an unfinished attach task) some server-side step is enabled"),
+ ("C07_step_decreases", "measure_step", "every server-side step from a reachable state strictly decreases an explicit natural-number measure"),
+ ("C07_bounded_work", "C07_bounded", "so between two environment events the server does at most measure-many steps: bounded work per request"),
+ ("C07_runs_to_idle", "C07_terminates", "and from every reachable state the server-side steps reach, within that bound, a state with nothing outstanding"),
+ ("C07_quiescent_is_idle", "quiescent_iff_idle", "no server-side step enabled <-> nothing outstanding: the server never rests in a state where a request waits"),
+ ("C07_original_deadlocks_K2", "C07_refuted_without_drain", "the pinned code (delete does not drain): a reachable state with a Publish and a Delete pending and no step enabled (capacity 2)"),
+ ("C07_original_deadlocks_K16", "C07_refuted_without_drain_16", "the same with the real capacity 16 - the schedule of findings/replays/C07-publish-delete-deadlock.cases"),
+])
+PX("C16", "C16_actors", "Abandoned requests have all-or-nothing effect", HDR_ACTORS, "ConcActorsP.v", [
+ ("C16_exists_implies_attached", "C16_attached", "actor model with drops of any client at any pending point: at every quiescent reachable state every subscription that exists, is not deleted and whose topic lives is attached to that topic"),
+ ("C16_never_wedged", "C16_no_wedge", "after any continuation, drops included, the server can still make progress whenever something is outstanding"),
+ ("C16_mailbox_effect_sub", "C16_effect_sub", "across any step a subscription's mailbox gains a suffix, loses exactly its head by its owner's dequeue, or is cleared when the subscription exits: a request is handled once or not at all"),
+ ("C16_mailbox_effect_topic", "C16_effect_topic", "the same for topic mailboxes"),
+ ("C16_drop_is_local", "C16_drop_local", "dropping a client changes only that client's task: nothing it already queued is withdrawn, nothing else is touched"),
+ ("C16_server_ignores_callers", "C16_effect_independent", "server-side steps are enabled and act on topics, subscriptions and attach tasks independently of the client list: whether the caller is still there does not change the effect of its request"),
+])
+PX("C06", "C06_conc", "Waiting consumers are woken when a message becomes available", HDR_CSUB, "ConcSubP.v", [
+ ("C06c_notify_wf", "notify_wf", "small-step model of tokio Notify + actor + consumers at await-point granularity: the Notify state is well formed in every reachable state"),
+ ("C06c_token", "C06_no_lost_wakeup_exact", "while the subscription exists and its backlog is non-empty a notification is pending somewhere: the permit, a woken or owing consumer, or a request in the mailbox that will notify"),
+ ("C06c_no_lost_wakeup", "C06_no_lost_wakeup", "the same in the five-way form of the property"),
+ ("C06c_unreachable", "C06_lost_wakeup_unreachable", "the lost-wake-up state (message queued, a consumer asleep, nothing pending) is unreachable"),
+ ("C06c_cancel_parked", "C06_cancel_parked_ok", "cancelling a sleeping consumer only removes it from the waiters"),
+ ("C06c_cancel_woken", "C06_cancel_woken_forwarded", "cancelling a consumer that was woken and has not run forwards the notification to the next waiter (or sets the permit)"),
+ ("C06c_quiescent", "C06_quiescent", "when no internal step is enabled and the backlog is non-empty, nobody is parked"),
+ ("C06c_old_code_loses", "C06_refuted_cancel_owing", "the pinned code: a consumer cancelled while waiting for room in the full mailbox with the notification consumed leaves a message queued and a sleeper (replayed on the implementation: findings/replays/C06-woken-consumer-dropped.cases)"),
+ ("C06c_old_code_loses_timeout", "C06_refuted_timeout_owing", "the same loss through the 300 s limit of a unary Pull"),
+ ("C06c_terminates", "internal_terminates", "internal activity (actor turns, consumer steps) always terminates"),
+])
+PX("C12", "C12_conc", "Deleting a subscription releases the consumers waiting on it", HDR_CSUB, "ConcSubP.v", [
+ ("C12c_release", "C12_release", "once the deletion was processed and internal activity has ended, every consumer has finished: streams with NOT_FOUND, blocked Pulls with an error status"),
+ ("C12c_no_hang", "C12_no_hang", "no consumer is left waiting after the deletion, whatever the interleaving with its own steps"),
+ ("C12c_progress", "C12_progress", "a consumer that has not finished after the deletion always has a step to take"),
+ ("C12c_bound", "internal_run_bound", "and the number of internal steps is bounded"),
+])
+PX("C15", "C15_conc", "Pull batches respect their size limit and are empty only when allowed", HDR_CSUB, "ConcSubP.v", [
+ ("C15c_empty_rule", "C15_empty_rule", "a blocking Pull answers with no messages only through its 300 s limit"),
+ ("C15c_outcomes", "C15_outcomes", "every outcome of a consumer is one of: messages (at least one), empty by limit, error, NOT_FOUND"),
+ ("C15c_empty_reply_continues", "C15_empty_reply_continues", "an empty reply from the actor makes a blocking consumer wait, not return"),
+])
